@@ -23,7 +23,8 @@ type pkgSpec struct {
 	Name   string `json:"name"`
 }
 
-var pkgFaults = []string{"bad-schema", "bad-schema-syntax", "bad-query", "bad-query-syntax", "codegen-fail", "missing-path", "unreadable-entry", "empty-queries", "dup-query"}
+var pkgFaults = []string{"bad-schema", "bad-schema-syntax", "bad-query", "bad-query-syntax", "codegen-fail", "missing-path", "unreadable-entry", "empty-queries", "dup-query",
+	"missing-extra-schema", "missing-extra-schema-dir", "missing-extra-queries", "missing-extra-queries-dir"}
 
 // files of one package + its v2 `sql` entry
 func (p pkgSpec) build(files map[string]string) string {
@@ -35,6 +36,7 @@ func (p pkgSpec) build(files map[string]string) string {
 	query := fmt.Sprintf("-- name: Get%s :one\nSELECT id, label, note FROM %s_items WHERE id = %s;\n\n-- name: List%s :many\nSELECT label FROM %s_items ORDER BY label;\n",
 		strings.Title(p.Dir), p.Dir, ph, strings.Title(p.Dir), p.Dir)
 	schemaPath := p.Dir + "/schema.sql"
+	schemaJSON, queriesJSON := "", ""
 	name := p.Name
 	switch p.Fault {
 	case "bad-schema":
@@ -49,6 +51,15 @@ func (p pkgSpec) build(files map[string]string) string {
 		name = "type" // `package type` does not parse: go/format rejects every file
 	case "missing-path":
 		schemaPath = p.Dir + "/nope.sql"
+	case "missing-extra-schema":
+		// one of SEVERAL paths does not exist: the package would compile without it, and must still fail
+		schemaJSON = fmt.Sprintf("[%q,%q]", p.Dir+"/schema.sql", p.Dir+"/nope.sql")
+	case "missing-extra-schema-dir":
+		schemaJSON = fmt.Sprintf("[%q,%q]", p.Dir+"/schema.sql", p.Dir+"/nopedir")
+	case "missing-extra-queries":
+		queriesJSON = fmt.Sprintf("[%q,%q]", p.Dir+"/"+p.Dir+"_query.sql", p.Dir+"/nope_query.sql")
+	case "missing-extra-queries-dir":
+		queriesJSON = fmt.Sprintf("[%q,%q]", p.Dir+"/"+p.Dir+"_query.sql", p.Dir+"/nopequeries")
 	case "unreadable-entry":
 		schemaPath = p.Dir + "/schemadir"
 		files[p.Dir+"/schemadir/001.sql"] = schema
@@ -71,7 +82,13 @@ func (p pkgSpec) build(files map[string]string) string {
 	case "python":
 		gen = fmt.Sprintf(`"python":{"package":%q,"out":%q}`, p.Dir, p.Out)
 	}
-	return fmt.Sprintf(`{"engine":%q,"schema":%q,"queries":%q,"gen":{%s}}`, p.Engine, schemaPath, p.Dir+"/"+p.Dir+"_query.sql", gen)
+	if schemaJSON == "" {
+		schemaJSON = fmt.Sprintf("%q", schemaPath)
+	}
+	if queriesJSON == "" {
+		queriesJSON = fmt.Sprintf("%q", p.Dir+"/"+p.Dir+"_query.sql")
+	}
+	return fmt.Sprintf(`{"engine":%q,"schema":%s,"queries":%s,"gen":{%s}}`, p.Engine, schemaJSON, queriesJSON, gen)
 }
 
 func confV2(entries []string) string {
